@@ -52,7 +52,9 @@ RULE = ("generated Python programs: every single-return helper body of a typed g
         "wraps (oracle only), helpers with := in body, default value or nested lambda) x 27 call shapes x 5 parameter names x "
         "nesting; helpers whose inner call is left by the FC4 bail-out, called with variables named like their parameters, "
         "permuted or inside expressions (substitution happens once); helpers whose comprehensions (list/set/dict/generator, two "
-        "clauses) have nested tuple / list / starred targets x argument names equal to each target name; non-trivial = python computed a value "
+        "clauses) have nested tuple / list / starred targets x argument names equal to each target name; callables that cannot be "
+        "turned into a lambda (`return` without a value, `...`, `pass`, a body whose rewriting raises) directly, through inlinable "
+        "helpers and in nested lambdas; non-trivial = python computed a value "
         "that was compared with the recorded lambda's; distinct by program text")
 
 
@@ -139,6 +141,27 @@ def mk(lam, helpers, depth=1, tags=(), group="", scope="g"):
             src = "%s = lambda %s: %s" % (h, plist, body)
         elif kind == "value":
             vs.append(Var(h, scope, "%s = %s" % (h, body), "%s = 'REBOUND'" % h))
+            continue
+        elif kind == "raw":
+            # module-level statements as they are (classes, enums the helpers refer to); not rebound afterwards
+            vs.append(Var(h, scope, body, "", byname=True))
+            continue
+        elif kind in ("bare", "docbare", "ellipsis", "pass", "crash"):
+            # callables that cannot be turned into a lambda: they stay calls by name, parse_as_ast never raises because of them.
+            # bare: `return` without a value (the Lambda has no body node: rewriting it raises inside safe_parse_wrapper);
+            # ellipsis / pass: not a return statement (ValueError); crash: rewriting the body raises (an enum class attribute that
+            # is not a member)
+            if kind == "bare":
+                src, hl = "def %s(%s):\n    return" % (h, plist), (list(params), None)
+            elif kind == "docbare":
+                src, hl = "def %s(%s):\n    'python returns None'\n    return" % (h, plist), (list(params), None)
+            elif kind == "ellipsis":
+                src, hl = "def %s(%s): ..." % (h, plist), None
+            elif kind == "pass":
+                src, hl = "def %s(%s):\n    pass" % (h, plist), None
+            else:
+                src, hl = "def %s(%s):\n    return %s" % (h, plist, body), (list(params), body)
+            vs.append(Var(h, scope, src, "", helper=hl, byname=True, stays=True))
             continue
         elif kind in STAY_KINDS:
             # F34 / F35: callables with a single-return source that must stay calls by name; the oracle executes them, so
@@ -329,6 +352,57 @@ def stays_by_name(ctx):
     return out
 
 
+# Whatever goes wrong while a captured callable is turned into a lambda, the call stays by name: parse_as_ast does not raise
+NOLAMBDA_HELPERS = [
+    ("Col", [], "class Col(enum.Enum):\n    red = 1\n    blue = 2", "raw"),
+    ("ignore", ["x"], None, "bare"),
+    ("ignore2", ["x", "y"], None, "docbare"),
+    ("not_yet", ["x"], None, "ellipsis"),
+    ("skip", ["x"], None, "pass"),
+    ("label", ["a"], "(a, Col.__name__)", "crash"),
+    ("label2", ["a"], "a + len(Col.__members__)", "crash"),
+    ("h", ["a"], "a + 1", "def"),
+    ("hb", ["a"], "(ignore(a), a + 1)", "def"),          # inlinable helpers that call the ones that stay
+    ("hl", ["a"], "label(a)[0] + 1", "def"),
+    ("hn", ["a"], "a if not not_yet(a) else 0", "def"),
+]
+NOLAMBDA_TEMPLATES = [
+    "lambda {P}: (ignore({P}.a), {P}.b)", "lambda {P}: {P}.b if not ignore({P}.a) else {P}.a", "lambda {P}: (ignore2({P}.a, {P}.b), h({P}.a))",
+    "lambda {P}: (not_yet({P}.a), {P}.b)", "lambda {P}: (skip(h({P}.a)), h({P}.b))", "lambda {P}: label({P}.a)", "lambda {P}: label2(h({P}.a))",
+    "lambda {P}: hb({P}.a)", "lambda {P}: hl({P}.a)", "lambda {P}: hn({P}.a)", "lambda {P}: h(hb({P}.a)[1])",
+    "lambda {P}: {P}.jets.Select(lambda {Q}: (ignore({Q}.pt), label({P}.a), h({Q}.pt)))",
+    "lambda {P}: [hb({Q}.pt)[1] + hl({P}.a) for {Q} in {P}.jets]",
+    "lambda {P}: (lambda {Q}: (ignore({Q}), skip({Q}), {Q}))({P}.a)",
+]
+NOLAMBDA_WITNESS = "lambda e: (ignore(e.a), e.b)"
+
+
+def _nolambda_case(lam, depth=1, tags=(), group="no-lambda", scope="g"):
+    used = names_of(lam)
+    hs = [h for h in NOLAMBDA_HELPERS if h[0] in used]
+    for _ in range(2):
+        for h in list(hs):
+            for g in NOLAMBDA_HELPERS:
+                if h[2] and h[3] != "raw" and g[0] in names_of(h[2]) and g not in hs:
+                    hs.insert(0, g)
+    return _keep(mk(lam, hs, depth, tags, group=group, scope=scope))
+
+
+def no_lambda(ctx):
+    out = []
+    for t in NOLAMBDA_TEMPLATES:
+        two = "{Q}" in t
+        for p in ("e", "x", "a"):
+            for q in (("j", "x", "a") if two else [""]):
+                if q == p:
+                    continue
+                lam = t.format(P=p, Q=q)
+                out.append(_nolambda_case(lam, 1, {"no-lambda"}))
+                if p == "e":
+                    out.append(_nolambda_case(lam, 2, {"no-lambda"}, scope="l1"))
+    return out
+
+
 # Substitution must happen once.  A call that FC4 deliberately leaves un-inlined (its argument names a binder of the
 # callee's body) sits inside an inlined helper; the arguments of the call that stays are already substituted and must not be
 # visited again under the same argument maps.  That shows when the call site's variables are named like the outer helper's
@@ -453,7 +527,7 @@ def starred_and_defaults(ctx):
 
 
 def corpus():
-    out = f34_f36_witnesses() + f30_f31_witnesses()
+    out = [_nolambda_case(NOLAMBDA_WITNESS, 1, {"no-lambda", "bare-return"}, group="corpus")] + f34_f36_witnesses() + f30_f31_witnesses()
     out.append(mk("lambda a: wn(a.a, [((1, 2), 3), ((4, a.b), 6)])", [("wn", ["k", "rows"], "[k * a + b + c for (a, b), c in rows]", "def")],
                   tags={"FC4", "unpacking-target"}, group="corpus"))
     out.append(mk("lambda e: h(e.x)", [("h", ["p"], "p", "def")], tags={"F06"}, group="corpus"))
@@ -662,7 +736,7 @@ def inlinable_left_by_name(case: Case, tree) -> list:
 
 
 def run(ctx):
-    cs = corpus() + starred_and_defaults(ctx) + stays_by_name(ctx) + resubstitution(ctx) + unpacking_targets(ctx) + second_call_cases() + higher_order(ctx) + structured(ctx)
+    cs = corpus() + starred_and_defaults(ctx) + stays_by_name(ctx) + resubstitution(ctx) + unpacking_targets(ctx) + no_lambda(ctx) + second_call_cases() + higher_order(ctx) + structured(ctx)
     en = enumerated(ctx)
     cap = ctx.budget(3000, 60000)
     if len(en) > cap:
